@@ -17,7 +17,9 @@ TLA = os.path.join(common.VERIF, "tla", "XAlloc.tla")
 def configs(tier):
     out = []
     if tier == "quick":
-        return [dict(MaxCap=16, InitCap=8, Sizes=(1, 3, 8), Align=4, GrowStep=0, MaxLive=2, GrowAmounts=(8,))]
+        return [dict(MaxCap=16, InitCap=8, Sizes=(1, 3, 8), Align=4, GrowStep=0, MaxLive=2, GrowAmounts=(8,)),
+                dict(MaxCap=16, InitCap=0, Sizes=(1, 3, 8), Align=1, GrowStep=8, MaxLive=2, GrowAmounts=(8,)),
+                dict(MaxCap=12, InitCap=4, Sizes=(1, 2, 3), Align=2, GrowStep=1, MaxLive=2, GrowAmounts=(1,))]
     for align in (1, 4):
         for gs in (0, 8):
             for ic in (0, 8):
